@@ -937,6 +937,8 @@ pub fn c11(ctx: &Ctx, rep: &mut Report) {
             let _ = std::fs::write(&jf, &json_ast);
             let exe = std::env::current_exe().unwrap();
             let rel = format!("d{}.fml", k);
+            // `setarch -R` may be missing or forbidden in a sandbox: probe it with /bin/true first
+            let setarch_ok = cli::run(cli::Spec::new(&["-R", "/bin/true"]).exe(std::path::Path::new("/usr/bin/setarch"))).success();
             let variants: Vec<(&str, cli::CliRun)> = vec![
                 ("absolute path", cli::run(cli::Spec::new(&["run", f.to_str().unwrap()]))),
                 ("relative path, other cwd", cli::run(cli::Spec::new(&["run", &rel]).cwd(&dir))),
@@ -946,6 +948,10 @@ pub fn c11(ctx: &Ctx, rep: &mut Report) {
             ];
             for (how, r) in variants.iter() {
                 rep.evaluations += 1;
+                if how.starts_with("setarch") && !setarch_ok {
+                    rep.skip("setarch-unavailable");
+                    continue;
+                }
                 if r.timed_out || r.spawn_error.is_some() {
                     rep.skip("cli-variant-unavailable");
                     continue;
